@@ -4,15 +4,37 @@
 `call_soon` (task steps, future wake-ups) pile up in `_ready` and the harness picks
 which task's handle runs next, one at a time.  Each handle run is exactly one
 await-free section of the task's coroutine (from one suspension point to the
-next), executed by the real `asyncio.Task` / `asyncio.Future` machinery.  Part of the
-trusted base (relies on CPython 3.12 private attributes `_ready`, `Handle._callback`,
-`Handle._run`, `events._set_running_loop`, and on `__self__` of task step callbacks).
+next), executed by the real `asyncio.Task` / `asyncio.Future` machinery.
+
+Time is virtual: `time()` only moves when the harness says so (`advance_to_next_timer`), which
+is then one more scheduler action ("tick").  Timers (`call_later` / `call_at`, hence
+`asyncio.sleep(d)`, `asyncio.timeout`, `asyncio.wait_for`) are kept by the base class in
+`_scheduled`; a tick moves the clock to the earliest pending timer and runs the callbacks of
+all timers due then (they are loop-internal: they resolve a future or cancel a task, i.e.
+they make task sections ready, they do not run user code).  So code under test that needs a
+running loop with working timers finds one, and seconds, minutes or days of virtual time can
+pass between two sections.
+
+`drive(coro)` runs one coroutine to its end as a task of this loop (set-up and read-back
+calls of the harness): only that task's sections and loop-internal callbacks run, other
+tasks' ready sections stay where they are.
+
+Part of the trusted base (relies on CPython 3.12 private attributes `_ready`, `_scheduled`,
+`Handle._callback`, `Handle._run`, `TimerHandle._when`, `events._set_running_loop`, and on
+`__self__` of task step callbacks).
 """
 from __future__ import annotations
 
 import asyncio
+import heapq
 from asyncio import events
 from typing import Any
+
+START = 1000.0
+
+
+class Suspended(RuntimeError):
+    """a coroutine handed to `drive` is waiting for something that nothing will ever deliver"""
 
 
 class SLoop(asyncio.BaseEventLoop):
@@ -20,6 +42,13 @@ class SLoop(asyncio.BaseEventLoop):
         super().__init__()
         self.errors: list[dict] = []
         self.set_exception_handler(lambda _loop, ctx: self.errors.append(ctx))
+        self._vt = START
+
+    def time(self) -> float:  # type: ignore[override]
+        return self._vt
+
+    def elapsed(self) -> float:
+        return self._vt - START
 
     def _process_events(self, event_list: Any) -> None:  # pragma: no cover - never polled
         pass
@@ -57,3 +86,85 @@ class SLoop(asyncio.BaseEventLoop):
 
     def discard_all(self) -> None:
         self._ready.clear()
+        for h in list(self._scheduled):  # type: ignore[attr-defined]
+            h.cancel()
+        self._scheduled.clear()  # type: ignore[attr-defined]
+
+    # ---- handles that belong to no task (done-callbacks of plain futures, gather/shield glue ...)
+
+    def _is_task_step(self, handle: Any) -> bool:
+        return isinstance(self.owner(handle), asyncio.Task)
+
+    def run_internal(self) -> int:
+        """run, oldest first, every ready handle that is not a section of a task"""
+        n = 0
+        while True:
+            h = next((h for h in self._ready if not h._cancelled and not self._is_task_step(h)), None)
+            if h is None:
+                return n
+            self._ready.remove(h)
+            events._set_running_loop(self)
+            try:
+                h._run()
+            finally:
+                events._set_running_loop(None)
+            n += 1
+
+    # ---- virtual time
+
+    def next_timer(self) -> float | None:
+        sched = self._scheduled  # type: ignore[attr-defined]
+        while sched and sched[0]._cancelled:
+            h = heapq.heappop(sched)
+            h._scheduled = False
+            self._timer_cancelled_count = max(0, self._timer_cancelled_count - 1)  # type: ignore[attr-defined]
+        return sched[0]._when if sched else None
+
+    def advance_to_next_timer(self) -> float | None:
+        """one tick: the clock jumps to the earliest pending timer; the callbacks of all timers due then
+        run (in due order).  Returns the number of seconds that passed, None when no timer is pending."""
+        when = self.next_timer()
+        if when is None:
+            return None
+        before = self._vt
+        if when > self._vt:
+            self._vt = when
+        sched = self._scheduled  # type: ignore[attr-defined]
+        while True:
+            nxt = self.next_timer()
+            if nxt is None or nxt > self._vt:
+                break
+            h = heapq.heappop(sched)
+            h._scheduled = False
+            events._set_running_loop(self)
+            try:
+                h._run()
+            finally:
+                events._set_running_loop(None)
+        self.run_internal()
+        return self._vt - before
+
+    # ---- one coroutine to its end
+
+    def drive(self, coro: Any, allow_time: bool = True, max_ticks: int = 64) -> Any:
+        """Run `coro` as a task of this loop until it is done and return its result (or raise what it raised).
+        Only sections of that task and loop-internal callbacks run.  When the task waits for a timer, virtual
+        time passes (`allow_time`); when it waits for anything else: `Suspended` (the task is cancelled first)."""
+        task = self.create_task(coro)
+        ticks = 0
+        while not task.done():
+            if self.run_one(task):
+                continue
+            if self.run_internal():
+                continue
+            if allow_time and ticks < max_ticks and self.advance_to_next_timer() is not None:
+                ticks += 1
+                continue
+            task.cancel()
+            for _ in range(100):
+                if task.done() or not (self.run_one(task) or self.run_internal()):
+                    break
+            if task.done() and not task.cancelled():
+                task.exception()
+            raise Suspended("store coroutine suspended outside a scheduler")
+        return task.result()
